@@ -222,6 +222,12 @@ def run(ctx, bt):
         spec = gen_program(ctx.rng)
         ctx.evaluations += 1
         run_program(ctx, bt, spec)
+    _run_steps(ctx, bt)
+
+
+def _run_steps(ctx, bt):
+    from ..runs_run import run_steps_protocol
+    run_steps_protocol(ctx, bt, ctx.scale(15, 300), FOOT_FIELDS, "run-steps[C17]:fixed-income-programs", make_spec=gen_program, build=build_program)
 
 
 def search(ctx, bt):
